@@ -22,7 +22,7 @@ sys.dont_write_bytecode = True
 # property -> props modules that contribute units
 _DEP = ['props.c17', 'props.c10']       # callee contracts (L1, register views, L2) are discharged as part of every dependent claim
 PROP_MODULES = {
-    'C01': ['props.step'] + _DEP, 'C02': ['props.step'] + _DEP, 'C03': ['props.step'] + _DEP, 'C04': ['props.step'] + _DEP,
+    'C01': ['props.step'] + _DEP, 'C02': ['props.step'] + _DEP, 'C03': ['props.c03'] + _DEP, 'C04': ['props.step'] + _DEP,
     'C05': ['props.c05'] + _DEP, 'C06': ['props.step'] + _DEP, 'C07': ['props.step'] + _DEP, 'C08': ['props.c08'] + _DEP,
     'C09': ['props.step'] + _DEP, 'C10': ['props.c10', 'props.c17'], 'C11': ['props.c11'] + _DEP, 'C12': ['props.c12'] + _DEP,
     'C13': ['props.c13'], 'C14': ['props.c14'], 'C16': ['props.c16'], 'C17': ['props.c17'], 'C18': ['props.step'] + _DEP, 'C19': ['props.step'] + _DEP,
@@ -226,6 +226,7 @@ def cmd_check(prop, tier, jobs, only=None):
     per_unit = {}
     xcheck_tot = [0]
     xfaults = []
+    nofail = []
     for r in results:
         u = by_uid[r['uid']]
         solver_s += r.get('solver_s', 0)
@@ -269,6 +270,11 @@ def cmd_check(prop, tier, jobs, only=None):
                     faults.append((r['uid'], 'CONTRACT-MISMATCH (sidecar contract disagrees with the body; the contract must be corrected): %s\n%s' % (ob['label'], out)))
                 elif rep is True:
                     violations.append((u, ob, path, out))
+                elif rep is False and u.meta.get('inductive'):
+                    # counter-model of an inductive obligation: an arbitrary loop state, not necessarily one a whole
+                    # execution reaches; the obligation itself is what failed
+                    nofail.append((r['uid'], 'inductive obligation %s/%s fails (solver counter-model is an intermediate loop state; '
+                                   'whole-instruction replay of it did not misbehave)\n%s' % (ob['kind'], ob['label'], out[-1500:]), path))
                 elif rep is False:
                     faults.append((r['uid'], 'ENGINE-MISMATCH: solver model for %s/%s does not reproduce natively\n%s' % (
                         ob['kind'], ob['label'], out)))
@@ -321,7 +327,6 @@ def cmd_check(prop, tier, jobs, only=None):
 
     # undecided obligations that were proved in the baseline -> violation without input
     base_units = baseline.get('units', {})
-    nofail = []
     still_undecided = []
     for uid, why in undecided:
         if uid in base_units and not why.startswith('out-of-subset'):
